@@ -332,6 +332,8 @@ def templates(cls):
         "upsert": [["into", [["src", "T"]]], ["insert", [["raw", 1], ["raw", 2]]], ["on_conflict", [A]], ["do_update", [B, ["add", B, ["raw", 1]]]], ["where", [["gt", B, ["raw", 0]]]]],
         "upsert_target_where": [["into", [["src", "T"]]], ["insert", [["raw", 1], ["raw", 2]]], ["on_conflict", [["py", "a"]]], ["where", [["gt", A, ["raw", 0]]]], ["do_update", [["py", "b"], ["raw", 3]]]],
         "window": [["from_", [["src", "T"]]], ["join", [["src", "U"], ["enum", "JoinType", "inner"]], {}, ["on", [["eq", UA, A]]]], ["select", [["call", ["call", ["an", "Sum", [B]], "over", [A]], "orderby", [B]]]]],
+        "window_filter": [["from_", [["src", "T"]]], ["join", [["src", "U"], ["enum", "JoinType", "inner"]], {}, ["on", [["eq", UA, A]]]],
+                          ["select", [["call", ["call", ["call", ["an", "Sum", [B]], "filter", [["gt", A, ["raw", 1]]]], "over", [A]], "orderby", [B]]]]],
         "agg_filter": [["from_", [["src", "T"]]], ["join", [["src", "U"], ["enum", "JoinType", "inner"]], {}, ["on", [["eq", UA, A]]]], ["select", [["call", ["fn", "Sum", [B]], "filter", [["gt", A, ["raw", 1]]]]]]],
         "setop": [["from_", [["src", "T"]]], ["select", [A]], ["union", [["q", SUB_T]]]],
         "force_index_for_update": [["from_", [["src", "T"]]], ["select", [A]], ["force_index", [["py", "ix"]]], ["for_update", []]],
